@@ -185,13 +185,13 @@ def spiLine (x y d : Int) (n : Nat) : String :=
     let o := (sts.getD k (Spiral.init ⟨x, y⟩ d)).cur
     let c := (sts.getD (k + 1) (Spiral.init ⟨x, y⟩ d)).cur
     if (k + 1) % 2 = 1 then showPos c else s!"{showPos o}>{showPos c}"
-  let ends := (List.range (n + 1)).filter fun k => (sts.getD k (Spiral.init ⟨x, y⟩ d)).cur == endCur
+  let ends := (List.range (n + 1)).filter fun k => (sts.getD k (Spiral.init ⟨x, y⟩ d)).equal (Spiral.init endCur d)
   let last := sts.getD n (Spiral.init ⟨x, y⟩ d)
   let init := Spiral.init ⟨x, y⟩ d
   let s1 := init.increment
   let sw := swapPair (init, last)            -- a{init}; a.swap(it): a holds the walked state, it the initial one
   s!"p={if steps.isEmpty then "-" else ",".intercalate steps} end={if ends.isEmpty then "-" else natList ends} " ++
-  s!"eqd={b01 (init.cur == (Spiral.init ⟨x, y⟩ (d + 5)).cur)}{b01 (!(init.cur == s1.cur))} " ++
+  s!"eqd={b01 (init.equal (Spiral.init ⟨x, y⟩ (d + 5)))}{b01 (!(init.equal s1))} " ++
   s!"sw={showPos sw.1.cur},{showPos sw.2.cur} next={showPos sw.1.increment.cur},{showPos sw.2.increment.cur}"
 
 def nbLine (t : IntTy) (x y : Int) : String :=
